@@ -14,7 +14,7 @@ using boost::system::error_code;
 namespace {
 
 int const k_max_objs = 8;
-int const k_ports[] = {5000, 5001, 5002, 65529, 65530, 65531, 65534, 2000, 2001, 65535, 1024};
+int const k_ports[] = {5000, 5001, 2002, 65529, 65530, 65531, 65534, 2000, 2001, 65535, 1024, 65532, 65533, 2003};
 int const k_nports = int(sizeof(k_ports) / sizeof(k_ports[0]));
 int const k_priv[] = {1, 80, 1023, 443};
 
@@ -259,6 +259,35 @@ struct Reg
 		++o.gen;
 		ctx.tr.rec("close", {i}, {});
 		check_view(i, "close");
+	}
+
+	// close, open again and bind the very endpoint the object held: it was released at once
+	void do_reopen_bind(int i)
+	{
+		Obj& o = objs[i];
+		if (!o.open || !o.bound) return;
+		if (o.kind == 1 && o.accept_pending) return;
+		model::Ep const e = o.ep;
+		bool const v4 = o.v4;
+		do_close(i);
+		do_open(i, v4);
+		if (!o.open || ctx.violated) return;
+		model::BindRequest r;
+		r.proto = proto_of(o); r.sock_v4 = v4; r.addr_v4 = v4; r.addr = e.addr; r.port = e.port;
+		r.node_v4 = own(o.node, true); r.node_v6 = own(o.node, false);
+		model::BindVerdict const v = reg.judge(r);
+		if (!v.must_succeed) throw HarnessError("model: released endpoint is not bindable");
+		error_code ec;
+		ip::address const a = ip::make_address(e.addr);
+		if (o.kind == 2) o.u->bind(udp::endpoint(a, uint16_t(e.port)), ec);
+		else if (o.kind == 1) o.a->bind(tcp::endpoint(a, uint16_t(e.port)), ec);
+		else o.t->bind(tcp::endpoint(a, uint16_t(e.port)), ec);
+		ctx.tr.rec("reopen_bind", {i, ec.value()}, {e.port});
+		ctx.hit("reopen_bind");
+		if (ec) { fail("registry.release", "object " + std::to_string(i) + " closed and re-opened, but binding its previous endpoint " + eps(e) + " again failed with " + errname(ec.value())); return; }
+		o.bound = true; o.ep = e;
+		reg.bind(r.proto, e, i);
+		check_view(i, "reopen_bind");
 	}
 
 	void do_destroy(int i)
@@ -553,6 +582,7 @@ struct Reg
 			if (o.op == "open") do_open(i, (o.b & 1) == 0);
 			else if (o.op == "bind") do_bind(i, o.b, o.c);
 			else if (o.op == "close") do_close(i);
+			else if (o.op == "reopen_bind") do_reopen_bind(i);
 			else if (o.op == "destroy") do_destroy(i);
 			else if (o.op == "move") do_move(i);
 			else if (o.op == "listen") do_listen(i);
@@ -589,8 +619,18 @@ struct RegistryEngine : Engine
 			p.cfg[q + "v6only"] = rng.chance(0.05) ? 1 : 0;
 		}
 		p.cfg["lat"] = rng.pick(std::vector<int64_t>{0, 1000000, 20000000});
-		if (rng.chance(0.4)) p.cfg["next_port"] = rng.range(65400, 65534);
-		if (rng.chance(0.1)) p.cfg["next_port"] = rng.range(65525, 65534);
+		{
+			// where the ephemeral counter starts: default, near its wrap, or right at / below a port
+			// that the program binds explicitly (so that the skip-taken-ports path runs)
+			double const u = rng.unit();
+			if (u < 0.25) p.cfg["next_port"] = rng.range(65400, 65534);
+			else if (u < 0.70)
+			{
+				int64_t const base = k_ports[rng.below(uint64_t(k_nports))];
+				int64_t const v = base - int64_t(rng.below(3));
+				if (v >= 1024 && v <= 65534) p.cfg["next_port"] = v;
+			}
+		}
 		int const no = int(rng.range(2, k_max_objs));
 		p.cfg["objs"] = no;
 		for (int i = 0; i < no; ++i)
@@ -598,15 +638,37 @@ struct RegistryEngine : Engine
 			p.cfg["o" + std::to_string(i) + "kind"] = int64_t(rng.below(3));
 			p.cfg["o" + std::to_string(i) + "node"] = int64_t(rng.below(2));
 		}
+		bool const cluster = no >= 3 && rng.chance(0.15);
+		if (cluster)
+		{
+			// a run of explicitly bound consecutive ports exactly where the ephemeral counter
+			// points, then a port-0 bind of the same protocol on the same address
+			static int const runs[][4] = {{7, 8, 2, 13}, {3, 4, 5, 11}, {11, 12, 6, 6}}; // indices into k_ports: 2000.., 65529.., 65532..
+			int const* run = runs[rng.below(3)];
+			int const len = int(rng.range(2, std::min(3, no - 1)));
+			int64_t const kind = int64_t(rng.below(3));
+			int64_t const node = int64_t(rng.below(2));
+			p.cfg["n" + std::to_string(node) + "v6only"] = 0;
+			p.cfg["next_port"] = k_ports[run[0]];
+			for (int i = 0; i <= len; ++i)
+			{
+				p.cfg["o" + std::to_string(i) + "kind"] = kind;
+				p.cfg["o" + std::to_string(i) + "node"] = node;
+				Op o; o.op = "open"; o.a = i; o.b = 0; p.ops.push_back(o);
+			}
+			for (int i = 0; i < len; ++i) { Op o; o.op = "bind"; o.a = i; o.b = 0; o.c = run[i]; p.ops.push_back(o); }
+			Op z; z.op = "bind"; z.a = len; z.b = 3; z.c = 0; p.ops.push_back(z);
+		}
 		for (int i = 0; i < no; ++i)
-			if (rng.chance(0.85)) { Op o; o.op = "open"; o.a = i; o.b = rng.chance(0.8) ? 0 : 1; p.ops.push_back(o); }
+			if (!cluster && rng.chance(0.85)) { Op o; o.op = "open"; o.a = i; o.b = rng.chance(0.8) ? 0 : 1; p.ops.push_back(o); }
 		int const nops = int(rng.range(3, tier ? 60 : 40));
 		for (int k = 0; k < nops; ++k)
 		{
 			Op o;
 			o.a = int64_t(rng.below(uint64_t(no)));
 			double const u = rng.unit();
-			if (u < 0.12) { o.op = "open"; o.b = rng.chance(0.75) ? 0 : 1; }
+			if (u < 0.06) { o.op = "reopen_bind"; }
+			else if (u < 0.12) { o.op = "open"; o.b = rng.chance(0.75) ? 0 : 1; }
 			else if (u < 0.55) { o.op = "bind"; o.b = int64_t(rng.below(8)); o.c = int64_t(rng.below(64)); }
 			else if (u < 0.65) o.op = "close";
 			else if (u < 0.70) o.op = "destroy";
